@@ -286,4 +286,148 @@ theorem popPack_spec (packed : List Obj) (o : Obj) :
         have : packed[i] = o := by simpa using hp
         rw [this]
 
+/-! ## objects with links -/
+
+/-- the link fields of an object do not overlap -/
+def SortedLinks (ls : List Link) : Prop :=
+  ls.Pairwise (fun a b => a.pos + a.width ≤ b.pos ∨ b.pos + b.width ≤ a.pos)
+
+/-- the links of the object stay inside it -/
+def LinksInside (ls : List Link) (n : Nat) : Prop := ∀ l ∈ ls, l.pos + l.width ≤ n
+
+theorem foldl_writeBE_length (val : Link → Nat) (ls : List Link) (b : List Nat) (h : LinksInside ls b.length) :
+    (ls.foldl (fun b l => writeBE b l.pos l.width (val l)) b).length = b.length :=
+  (foldl_writeBE_before val 0 ls b (fun l hl => ⟨Nat.zero_le _, h l hl⟩)).1
+
+/-- a region that no link touches keeps its bytes -/
+theorem foldl_writeBE_other (val : Link → Nat) (w p : Nat) :
+    ∀ (ls : List Link) (b : List Nat), LinksInside ls b.length →
+      (∀ l ∈ ls, l.pos + l.width ≤ p ∨ p + w ≤ l.pos) →
+      rdN w (ls.foldl (fun b l => writeBE b l.pos l.width (val l)) b) p = rdN w b p
+  | [], b, _, _ => rfl
+  | l :: ls, b, hin, hd => by
+    have hl := hin l (by simp)
+    have hlen : (writeBE b l.pos l.width (val l)).length = b.length := writeBE_length hl
+    simp only [List.foldl_cons]
+    rw [foldl_writeBE_other val w p ls _ (fun l' hl' => by rw [hlen]; exact hin l' (by simp [hl']))
+      (fun l' hl' => hd l' (by simp [hl']))]
+    rcases hd l (by simp) with h | h
+    · exact rdN_writeBE_after h hl
+    · exact rdN_writeBE_before h (by omega)
+
+/-- every link field holds its resolved value -/
+theorem foldl_writeBE_link (val : Link → Nat) :
+    ∀ (ls : List Link) (b : List Nat), SortedLinks ls → LinksInside ls b.length →
+      ∀ m ∈ ls, val m < 256 ^ m.width →
+      rdN m.width (ls.foldl (fun b l => writeBE b l.pos l.width (val l)) b) m.pos = some (val m)
+  | [], _, _, _, m, hm, _ => by simp at hm
+  | l :: ls, b, hs, hin, m, hm, hv => by
+    have hl := hin l (by simp)
+    have hlen : (writeBE b l.pos l.width (val l)).length = b.length := writeBE_length hl
+    have hin' : LinksInside ls (writeBE b l.pos l.width (val l)).length := by
+      intro l' hl'; rw [hlen]; exact hin l' (by simp [hl'])
+    simp only [List.foldl_cons]
+    by_cases hml : m = l
+    · subst hml
+      rw [foldl_writeBE_other val m.width m.pos ls _ hin'
+        (fun l' hl' => by
+          rcases (List.pairwise_cons.mp hs).1 l' hl' with h | h
+          · right; exact h
+          · left; exact h)]
+      exact rdN_writeBE_same hl hv
+    · have hm' : m ∈ ls := by
+        cases hm with
+        | head => exact absurd rfl hml
+        | tail _ h => exact h
+      exact foldl_writeBE_link val ls _ (List.pairwise_cons.mp hs).2 hin' m hm' hv
+
+/-- the packed list is well formed: links point to earlier objects, stay inside, are sorted -/
+def WF (packed : List Obj) : Prop :=
+  ∀ k (h : k < packed.length), (∀ l ∈ packed[k].links, l.target < k) ∧
+    LinksInside packed[k].links packed[k].bytes.length ∧ SortedLinks packed[k].links
+
+theorem patchObj_length (packed : List Obj) (k : Nat) (o : Obj) (h : LinksInside o.links o.bytes.length) :
+    (patchObj packed k o).length = o.bytes.length :=
+  foldl_writeBE_length _ _ _ h
+
+theorem getD_eq_getElem (packed : List Obj) (k : Nat) (h : k < packed.length) :
+    packed.getD k ⟨[], []⟩ = packed[k] := by
+  simp [List.getD, List.getElem?_eq_getElem h]
+
+theorem bodyUpTo_length (packed : List Obj) (wf : WF packed) :
+    ∀ n, n ≤ packed.length → (bodyUpTo packed n).length = ((packed.take n).map Obj.size).sum
+  | 0, _ => by simp [bodyUpTo]
+  | n + 1, hn => by
+    have hlt : n < packed.length := by omega
+    rw [bodyUpTo, List.length_append, bodyUpTo_length packed wf n (by omega), getD_eq_getElem _ _ hlt,
+      patchObj_length _ _ _ (wf n hlt).2.1]
+    have ht : List.take (n + 1) packed = List.take n packed ++ [packed[n]] := by
+      rw [List.take_succ, List.getElem?_eq_getElem hlt]; rfl
+    rw [ht, List.map_append, List.sum_append]
+    simp [Obj.size]
+    omega
+
+/-- the objects `k+1 … n-1` come first, then object `k`, then the earlier ones -/
+theorem bodyUpTo_split (packed : List Obj) (k : Nat) :
+    ∀ n, k < n → ∃ X, bodyUpTo packed n = X ++ bodyUpTo packed (k + 1) ∧
+      (n ≤ packed.length → WF packed → X.length = (((packed.take n).drop (k + 1)).map Obj.size).sum)
+  | 0, h => by omega
+  | n + 1, h => by
+    by_cases hk : k = n
+    · subst hk
+      exact ⟨[], by simp, fun _ _ => by simp⟩
+    · obtain ⟨X, hX, hlen⟩ := bodyUpTo_split packed k n (by omega)
+      refine ⟨patchObj packed n (packed.getD n ⟨[], []⟩) ++ X, by rw [bodyUpTo, hX, List.append_assoc], ?_⟩
+      intro hn wf
+      have hlt : n < packed.length := by omega
+      rw [List.length_append, hlen (by omega) wf, getD_eq_getElem _ _ hlt,
+        patchObj_length _ _ _ (wf n hlt).2.1]
+      have ht : List.take (n + 1) packed = List.take n packed ++ [packed[n]] := by
+        rw [List.take_succ, List.getElem?_eq_getElem hlt]; rfl
+      rw [ht, List.drop_append_of_le_length (by simp; omega), List.map_append, List.sum_append]
+      simp [Obj.size]
+      omega
+
+/-- where object `k` starts in the output: `rootOff` -/
+theorem rootOff_eq (rootLen : Nat) (packed : List Obj) (k : Nat) :
+    rootOff rootLen packed k = rootLen + ((packed.drop (k + 1)).map Obj.size).sum := rfl
+
+/-- `child.head - parent.head` added to the parent's head is the child's head -/
+theorem relOff_add (rootLen : Nat) (packed : List Obj) (k t : Nat) (ht : t < k) (hk : k < packed.length) :
+    rootOff rootLen packed k + relOff packed k t = rootOff rootLen packed t := by
+  unfold rootOff relOff
+  have : packed.drop (t + 1) = (packed.take (k + 1)).drop (t + 1) ++ packed.drop (k + 1) := by
+    conv => lhs; rw [← List.take_append_drop (k + 1) packed]
+    rw [List.drop_append_of_le_length (by simp; omega)]
+  rw [this, List.map_append, List.sum_append]
+  omega
+
+/-- reading inside object `k` of the laid-out table -/
+theorem read_in_object (packed : List Obj) (wf : WF packed) (rootBytes : List Nat) (k : Nat)
+    (hk : k < packed.length) (w p : Nat) (hp : p + w ≤ packed[k].bytes.length) :
+    rdN w (rootBytes ++ bodyUpTo packed packed.length) (rootOff rootBytes.length packed k + p) =
+      rdN w (patchObj packed k packed[k]) p := by
+  obtain ⟨X, hX, hlen⟩ := bodyUpTo_split packed k packed.length hk
+  have hXl := hlen (Nat.le_refl _) wf
+  rw [List.take_length] at hXl
+  rw [hX, bodyUpTo, getD_eq_getElem _ _ hk, ← List.append_assoc, ← List.append_assoc]
+  have hpre : (rootBytes ++ X).length = rootOff rootBytes.length packed k := by
+    rw [List.length_append, hXl]; rfl
+  rw [List.append_assoc (rootBytes ++ X), rdN_append_right' hpre]
+  exact rdN_append_left (by rw [patchObj_length _ _ _ (wf k hk).2.1]; exact hp)
+
+/-- a slice inside object `k` of the laid-out table -/
+theorem slice_in_object (packed : List Obj) (wf : WF packed) (rootBytes : List Nat) (k : Nat)
+    (hk : k < packed.length) (n p : Nat) (hp : p + n ≤ packed[k].bytes.length) :
+    slice (rootBytes ++ bodyUpTo packed packed.length) (rootOff rootBytes.length packed k + p) n =
+      slice (patchObj packed k packed[k]) p n := by
+  obtain ⟨X, hX, hlen⟩ := bodyUpTo_split packed k packed.length hk
+  have hXl := hlen (Nat.le_refl _) wf
+  rw [List.take_length] at hXl
+  rw [hX, bodyUpTo, getD_eq_getElem _ _ hk, ← List.append_assoc, ← List.append_assoc]
+  have hpre : (rootBytes ++ X).length = rootOff rootBytes.length packed k := by
+    rw [List.length_append, hXl]; rfl
+  rw [List.append_assoc (rootBytes ++ X), slice_append_right' hpre]
+  exact slice_append_left (by rw [patchObj_length _ _ _ (wf k hk).2.1]; exact hp)
+
 end FontVerif.ColrSer
